@@ -29,7 +29,7 @@ func init() { families["reload"] = runReload }
 func runReload(seed uint64, n int, tier string, out string, replay string) {
 	rnd := hx.NewRand(seed)
 	sum := hx.NewSummary("reload", seed)
-	sum.Rule = "first: 16 goroutines route tenant hosts continuously (host-restricted location with 48 hosts + catch-all; each lookup must return the tenants location) while the location registry is re-applied 300+10n times (a runtime crash is caught through inflight.json); then one case = one request through the full middleware chain (error, fresh, responder, cache, proxy) to an origin that parks it; while it is parked one of: upstream.Reset with the upstream's Accept-Encoding added / removed / changed, location.Reset with other added headers, server.Reset with another compress threshold, compress.Reset with other levels, a purge of the key, nothing; then the origin answers (gzip when asked for it) and a second client repeats the request (hit); both responses must carry a Content-Encoding their own client accepts, decode to the origin's body for that URL and have status 200; non-trivial = something happened while parked; distinct by (event, encodings)"
+	sum.Rule = "first: 16 goroutines route tenant hosts continuously (host-restricted location with 48 hosts + catch-all; each lookup must return the tenants location) while the location registry is re-applied 20000+100n times, alternately with and without one more, more specific location (a runtime crash is caught through inflight.json); then one case = one request through the full middleware chain (error, fresh, responder, cache, proxy) to an origin that parks it; while it is parked one of: upstream.Reset with the upstream's Accept-Encoding added / removed / changed, location.Reset with other added headers, server.Reset with another compress threshold, compress.Reset with other levels, a purge of the key, the server re-bound to another cache while its old cache profile is dropped, nothing; then the origin answers (gzip when asked for it) and a second client repeats the request (hit); both responses must carry a Content-Encoding their own client accepts, decode to the origin's body for that URL and have status 200; non-trivial = something happened while parked; distinct by (event, encodings)"
 	distinct := hx.NewDistinct()
 	var mu sync.Mutex
 	gate := map[string]chan struct{}{}
@@ -82,7 +82,7 @@ func runReload(seed uint64, n int, tier string, out string, replay string) {
 		tenantHosts = append(tenantHosts, fmt.Sprintf("tenant%d.example", k))
 	}
 	{
-		_ = os.WriteFile(out+"/inflight.json", []byte(`{"family":"reload","event":"16 goroutines route tenant hosts continuously (location.Get on a host-restricted location with 48 hosts + a catch-all) while the location registry is re-applied 300+ times with the same configuration"}`), 0o644)
+		_ = os.WriteFile(out+"/inflight.json", []byte(`{"family":"reload","event":"16 goroutines route tenant hosts continuously (location.Get on a host-restricted location with 48 hosts + a catch-all) while the location registry is re-applied 20000+ times, alternately with and without one more (more specific) location"}`), 0o644)
 		lcfg := []config.LocationConfig{{Name: "tenants", Upstream: "ru", Hosts: tenantHosts}, {Name: "catchall", Upstream: "other"}}
 		location.Reset(lcfg)
 		var wg sync.WaitGroup
@@ -101,8 +101,15 @@ func runReload(seed uint64, n int, tier string, out string, replay string) {
 				}
 			}(g)
 		}
-		for round := 0; round < 300+10*n; round++ {
-			location.Reset(lcfg)
+		// the registry alternates between two configurations: a more specific location ("special", one host +
+		// one prefix, sorted first) comes and goes; the tenants and catch-all locations never change
+		withSpecial := append([]config.LocationConfig{{Name: "special", Upstream: "sp", Hosts: []string{"special.example"}, Prefixes: []string{"/special"}}}, lcfg...)
+		for round := 0; round < 20000+100*n; round++ {
+			if round%2 == 0 {
+				location.Reset(withSpecial)
+			} else {
+				location.Reset(lcfg)
+			}
 			for spin := 0; spin < 2000; spin++ {
 				_ = spin
 			}
@@ -111,11 +118,11 @@ func runReload(seed uint64, n int, tier string, out string, replay string) {
 		wg.Wait()
 		sum.Distribution["route_lookups_during_reloads"] = int(lookups.Load())
 		if wrong.Load() > 0 {
-			sum.ImplViolations = append(sum.ImplViolations, map[string]interface{}{"property": "C20+C14", "kind": "misrouted-during-reloads", "count": wrong.Load(), "lookups": lookups.Load()})
+			sum.ImplViolations = append(sum.ImplViolations, map[string]interface{}{"property": "C20+C14+C16", "kind": "misrouted-during-reloads", "count": wrong.Load(), "lookups": lookups.Load()})
 		}
 		_ = os.Remove(out + "/inflight.json")
 	}
-	events := []string{"none", "upstream-ae-removed", "upstream-ae-added", "upstream-ae-changed", "location-headers", "server-threshold", "compress-levels", "purge", "upstream-same"}
+	events := []string{"server-cache-rebound", "none", "upstream-ae-removed", "upstream-ae-added", "upstream-ae-changed", "location-headers", "server-threshold", "compress-levels", "purge", "upstream-same"}
 	accepts := []string{"", "gzip", "br", "gzip, br", "identity"}
 	for i := 0; i < n; i++ {
 		ev := events[i%len(events)]
@@ -126,6 +133,7 @@ func runReload(seed uint64, n int, tier string, out string, replay string) {
 		case "upstream-ae-added":
 			ae0 = ""
 		}
+		cache.ResetDispatchers([]config.CacheConfig{{Name: "rc", Size: 1000, HitForPass: "5m"}})
 		upstream.Reset(upCfg(ae0))
 		location.Reset(locCfg(""))
 		server.Reset(srvCfg("1kb"))
@@ -174,6 +182,10 @@ func runReload(seed uint64, n int, tier string, out string, replay string) {
 			server.Reset(srvCfg("64kb"))
 		case "compress-levels":
 			compress.Reset([]config.CompressConfig{{Name: "bestCompression", Levels: map[string]uint{"gzip": 1, "br": 1}}})
+		case "server-cache-rebound":
+			// the server now names another cache and the old cache profile is gone (a closed configuration)
+			cache.ResetDispatchers([]config.CacheConfig{{Name: "rc2", Size: 1000, HitForPass: "5m"}})
+			server.Reset([]config.ServerConfig{{Addr: ":7998", Locations: []string{"rl"}, Cache: "rc2", CompressMinLength: "1kb"}})
 		case "purge":
 			cache.RemoveHTTPCache("", []byte("GET reload.example http://reload.example"+path))
 			cache.RemoveHTTPCache("rc", []byte("GET reload.example "+path))
@@ -200,7 +212,11 @@ func runReload(seed uint64, n int, tier string, out string, replay string) {
 			}
 			accepted := ce == "" || strings.Contains(acc, ce)
 			if rec.Code != 200 || !accepted || err != nil || !bytes.Equal(dec, bodyFor(path)) {
-				sum.ImplViolations = append(sum.ImplViolations, map[string]interface{}{"property": "C20+C16", "kind": "malformed-after-" + ev, "which": which, "event_while_parked": ev,
+				prop := "C20+C16"
+				if ev == "server-cache-rebound" {
+					prop = "C20+C16+C17" // an accepted (closed) configuration whose server cannot resolve its cache
+				}
+				sum.ImplViolations = append(sum.ImplViolations, map[string]interface{}{"property": prop, "kind": "malformed-after-" + ev, "which": which, "event_while_parked": ev,
 					"upstream_accept_encoding_before": ae0, "client_accept_encoding": acc, "status": rec.Code, "content_encoding": ce, "x_status": rec.Header().Get("X-Status"),
 					"decode_error": fmt.Sprint(err), "decoded_len": len(dec), "want_len": len(bodyFor(path))})
 			}
